@@ -16,6 +16,7 @@ pub const ALL_PROPS: &[&str] = &[
 
 pub fn generate(prop: &str, _run: u64, t: &mut Tape) -> Scenario {
     match prop {
+        "C02" if _run % 4 == 3 => gen2::gen_timed(t, false),
         "C02" => {
             let mut p = Profile::pipe();
             p.remote_bias = 85;
